@@ -79,8 +79,13 @@ func (g *gater) InterceptUpgraded(network.Conn) (bool, control.DisconnectReason)
 }
 
 func newRcmgr() network.ResourceManager {
-	rm, err := rcmgr.NewResourceManager(rcmgr.NewFixedLimiter(rcmgr.DefaultLimits.AutoScale()),
-		rcmgr.WithConnRateLimiters(&rate.Limiter{}))
+	// default limits, except that one peer may hold 64 conns (default 8): the listener cases need more than
+	// AcceptQueueLength conns between the same two identities
+	cfg := rcmgr.DefaultLimits
+	cfg.PeerBaseLimit.Conns, cfg.PeerBaseLimit.ConnsInbound, cfg.PeerBaseLimit.ConnsOutbound, cfg.PeerBaseLimit.FD = 64, 64, 64, 64
+	rm, err := rcmgr.NewResourceManager(rcmgr.NewFixedLimiter(cfg.AutoScale()),
+		rcmgr.WithConnRateLimiters(&rate.Limiter{}),
+		rcmgr.WithLimitPerSubnet([]rcmgr.ConnLimitPerSubnet{{PrefixLength: 32, ConnCount: 64}}, nil))
 	if err != nil {
 		panic(err)
 	}
@@ -152,6 +157,7 @@ func TestC04(t *testing.T) {
 	s.upgradeRefusals()
 	s.listenerCases()
 	s.swarmCases()
+	s.streamRaceCases()
 	s.socketSweep()
 	r.Require("upgrade_faults_fired", 300)
 	r.Require("upgrade_failed_one_side", 200)
